@@ -4,8 +4,11 @@ Monitors:
  subspace : for a homogeneous innermost region the collapsed solution y(r_j) returned by the solver lies in the span of the
             starting vectors that find_starting_conditions returns AT r_j (least-squares residual after physical row scaling)
             = "starting vectors at two radii are related by the solver's own ODEs", observed without re-implementing the ODEs
- r0sweep  : Love numbers for r0/R in {1e-4 .. 0.5} agree within the integration budget
+ r0sweep  : Love numbers for r0/R in {1e-4 .. 0.5} agree within the integration budget (uniform solid spheres of both families; liquid static and
+            liquid dynamic cores below a solid mantle, the dynamic one with both families)
  families : Takeuchi and Kamata starting conditions give the same Love numbers at the same r0
+ subspace_liquid : the same for a dynamic liquid core below a solid mantle (both families; start radii up to 0.8 of the core)
+ liquid_span : the Takeuchi and Kamata dynamic-liquid starting vectors at the same radius span the same plane of regular solutions
  zfunc    : the z_l(x^2) helper observed through the starting vectors (y3 = z/r) against x j_{l+1}(x)/j_l(x) (mpmath)
 """
 import math
@@ -35,9 +38,12 @@ def gen_cases(tier, seed):
                 'mag': float(10 ** rng.uniform(7.5, 11.3)), 'ang': float(rng.uniform(0.1, 40)), 'Kfac': float(10 ** rng.uniform(0.3, 2.5)), 'sub': i, 'seed': seed}
         for fam in ('tak_static', 'tak_dynamic', 'kam_static', 'kam_dynamic'):
             cases.append(dict(base, mon='subspace', fam=fam, r0f=float(10 ** rng.uniform(-3, math.log10(0.5)))))
-        cases.append(dict(base, mon='subspace_liquid', fam=['kam', 'tak'][i % 2], r0f=float(10 ** rng.uniform(-3, -0.7)), freq=float(10 ** rng.uniform(-4, -3))))
-        cases.append(dict(base, mon='r0sweep', fam=['tak_static', 'tak_dynamic', 'kam_static', 'kam_dynamic', 'liq_static_core', 'liq_dynamic_core'][i % 6],
-                          freq=base['freq'] if i % 6 != 5 else float(10 ** rng.uniform(-4, -3))))
+        cases.append(dict(base, mon='subspace_liquid', fam=['kam', 'tak'][i % 2], r0f=float(10 ** rng.uniform(-3, -0.1)), freq=float(10 ** rng.uniform(-4, -2.3))))
+        cases.append(dict(base, mon='r0sweep', fam=['tak_static', 'tak_dynamic', 'kam_static', 'kam_dynamic', 'liq_static_core', 'liq_dynamic_core', 'liq_dynamic_core_tak'][i % 7],
+                          freq=base['freq'] if i % 7 < 5 else float(10 ** rng.uniform(-3.5, -2.3))))
+        for _ in range(3):
+            cases.append(dict(base, mon='liquid_span', r0f=float(10 ** rng.uniform(-4, math.log10(0.5))), freq=float(10 ** rng.uniform(-4.3, -2)),
+                              Kliq=float(10 ** rng.uniform(9.5, 12))))
         cases.append(dict(base, mon='families', static=bool(i % 2), r0f=float(10 ** rng.uniform(-3, -1))))
         cases.append(dict(base, mon='zfunc', static=bool(i % 2), r0f=float(10 ** rng.uniform(-4, math.log10(0.5)))))
     return cases
@@ -107,18 +113,24 @@ def eval_case(c):
     def inconclusive(note):
         return {'status': 'inconclusive', 'nontrivial': False, 'violations': [], 'obs': dict(obs, note=note), 'counters': cnt}
 
-    def conv(body, kam, keep=False, rt=rtol):
-        cnt['solves'] += 2
-        s = solve(body, w, l=l, kamata=kam, rtol=rt, nondim=False, max_steps=400000, keep_result=keep, method='DOP853')
-        if not s['success']:
-            return None, ('exception ' + s['exc']) if s['exc'] else 'solver failure: ' + s['message'][:50]
-        s2 = solve(body, w, l=l, kamata=kam, rtol=rt / 100, nondim=False, max_steps=400000, method='DOP853')
-        if not s2['success']:
-            return None, 'convergence probe failed'
-        d = float(np.max(np.abs(s2['love'] - s['love'])))
-        if d > 1e3 * rt:
-            return None, f'not converged ({d:.1e})'
-        return s, d
+    def conv(body, kam, keep=False, rt=rtol, nds=(False,)):
+        why = None
+        for nd in nds:
+            cnt['solves'] += 2
+            s = solve(body, w, l=l, kamata=kam, rtol=rt, nondim=nd, max_steps=400000, keep_result=keep, method='DOP853')
+            if not s['success']:
+                why = why or (('exception ' + s['exc']) if s['exc'] else 'solver failure: ' + s['message'][:50])
+                continue
+            s2 = solve(body, w, l=l, kamata=kam, rtol=rt / 100, nondim=nd, max_steps=400000, method='DOP853')
+            if not s2['success']:
+                why = why or 'convergence probe failed'
+                continue
+            d = float(np.max(np.abs(s2['love'] - s['love'])))
+            if d > 1e3 * rt:
+                why = why or f'not converged ({d:.1e})'
+                continue
+            return s, d
+        return None, why
 
     if mon == 'subspace':
         fam = c['fam']
@@ -174,24 +186,35 @@ def eval_case(c):
         layers = [{'type': 'liquid', 'static': False, 'incomp': False, 'ftop': 0.5, 'rho': rho, 'mu': 0j, 'K': K},
                   {'type': 'solid', 'static': False, 'incomp': False, 'ftop': 1.0, 'rho': rho * 0.5, 'mu': mu, 'K': K}]
         body = layered_body(layers, R, c['r0f'] * 0.5 * R, 40)
-        s, d = conv(body, kam, keep=True, rt=1e-9)
+        s, d = conv(body, kam, keep=True, rt=1e-9, nds=(False, True))
         if s is None:
             return inconclusive(d)
         y = s['result'][:6]
         r, g = body['r'], body['g']
-        worst = 0.0
-        for j in (39,):
-            sc = start_vectors(1, False, False, kam, c, r[j], 0j, K, 2, 4)
-            S = np.array([1, 1 / (rho * g[j] * r[j]) * r[j], 1 / (g[j] * r[j]), 1 / g[j]])
-            S = np.array([1, 1 / (rho * g[j]), 1 / (g[j] * r[j]), 1 / g[j]])
-            A = (sc * S).T
-            b = y[[0, 1, 4, 5], j] * S
-            worst = max(worst, resid_in(A, b))
-            cnt['subspace_tests'] += 1
+        j = 39
+        S = np.array([1, 1 / (rho * g[j]), 1 / (g[j] * r[j]), 1 / g[j]])
+        b = y[[0, 1, 4, 5], j] * S
+        res_own = resid_in((start_vectors(1, False, False, kam, c, r[j], 0j, K, 2, 4) * S).T, b)
+        res_kam = res_own if kam else resid_in((start_vectors(1, False, False, True, c, r[j], 0j, K, 2, 4) * S).T, b)
+        cnt['subspace_tests'] += 1
         tol = 1e3 * 1e-9 + 1e-8 + 10 * d
-        obs.update(fam=c['fam'], worst_residual=worst, tol=tol)
-        if worst > tol:
-            V(f'liquid-starting-vectors-not-solutions-{c["fam"]}', f'dynamic liquid core ({c["fam"]}): solution leaves the span of the starting vectors: residual {worst:.3e} > {tol:.1e}')
+        gam = 4 * math.pi * G * rho / 3
+        k2l = abs((w * w + 4 * gam - l * (l + 1) * gam ** 2 / (w * w)) / (K / rho))
+        z0, ztop = k2l * r[0] ** 2, k2l * r[j] ** 2
+        obs.update(fam=c['fam'], residual_own_family=res_own, residual_kamata_plane=res_kam, tol=tol, z_at_r0=z0, z_at_top=ztop, r0_over_R=float(r[0] / R))
+        # the solution started at r0 must arrive at the top of the uniform liquid core inside the plane of regular solutions, which is
+        # observed through the starting vectors evaluated there (own family; for Takeuchi also the Kamata plane, because the truncated
+        # Takeuchi series (open finding) is inexact at the top whenever |k^2 r_top^2| > 3)
+        if res_kam > tol:
+            if (not kam) and z0 > 3.0:
+                V('takeuchi-phi-psi-series-truncated', f'dynamic liquid core (tak) started at r0={r[0]/R:.3g}R where |k^2 r0^2| = {z0:.3g}: the Takeuchi phi/psi power series are truncated at z^10; the solution at the top of the core is not a regular solution (residual {res_kam:.3e})', residual=res_kam)
+            else:
+                V(f'liquid-starting-vectors-not-solutions-{c["fam"]}', f'dynamic liquid core ({c["fam"]}) started at r0={r[0]/R:.3g}R (|k^2 r0^2| = {z0:.3g}): the solution at the top of the core leaves the plane of regular solutions: residual {res_kam:.3e} > {tol:.1e}', residual=res_kam)
+        elif res_own > tol:
+            if ztop > 3.0:
+                V('takeuchi-phi-psi-series-truncated', f'dynamic liquid core (tak): the solution started at r0={r[0]/R:.3g}R arrives in the Kamata plane at the top of the core (residual {res_kam:.1e}) but not in the plane of the Takeuchi vectors evaluated there (residual {res_own:.3e}), |k^2 r^2| = {ztop:.3g} there: truncated phi/psi series', residual=res_own)
+            else:
+                V('liquid-starting-vectors-not-solutions-tak', f'dynamic liquid core (tak): Takeuchi vectors evaluated at the top of the core (|k^2 r^2| = {ztop:.3g}) do not contain the solution started at r0={r[0]/R:.3g}R: residual {res_own:.3e} > {tol:.1e}', residual=res_own)
         return {'status': 'violated' if viol else 'held', 'nontrivial': True, 'violations': viol, 'obs': obs, 'counters': cnt}
 
     if mon == 'r0sweep':
@@ -200,14 +223,16 @@ def eval_case(c):
         for r0f in R0S:
             if fam.startswith('liq'):
                 st = fam == 'liq_static_core'
+                if r0f > 0.55:
+                    continue
                 layers = [{'type': 'liquid', 'static': st, 'incomp': False, 'ftop': 0.6, 'rho': rho, 'mu': 0j, 'K': K},
                           {'type': 'solid', 'static': False, 'incomp': False, 'ftop': 1.0, 'rho': rho * 0.5, 'mu': mu, 'K': K}]
                 body = layered_body(layers, R, r0f * R, 60, radii_by_layer=[np.linspace(r0f * R, 0.6 * R, 60), np.linspace(0.6 * R, R, 61)[1:]])
-                kam = True
+                kam = not fam.endswith('_tak')
             else:
                 kam, static = fam.startswith('kam'), fam.endswith('static')
                 body = homog_body(R, rho, mu, K, 80, r0f * R, static=static, incomp=False)
-            s, d = conv(body, kam)
+            s, d = conv(body, kam, nds=(False, True) if fam.startswith('liq') else (False,))
             if s is None:
                 res.append((r0f, None, d))
             else:
@@ -239,6 +264,11 @@ def eval_case(c):
                         key = 'takeuchi-y6-cross-index'
                     elif x2max > 3.0:
                         key = 'takeuchi-phi-psi-series-truncated'
+                if fam == 'liq_dynamic_core_tak':
+                    gam = 4 * math.pi * G * rho / 3
+                    zl = abs((w * w + 4 * gam - l * (l + 1) * gam ** 2 / (w * w)) / (K / rho)) * (r0f * R) ** 2
+                    if zl > 3.0:
+                        key = 'takeuchi-phi-psi-series-truncated'
                 extra = f' [Takeuchi-in-Kamata-span residual {before:.2e}, after y6 re-assembly {after:.2e}, max|k^2 r0^2| {x2max:.2e}]' if fam.startswith('tak') else ''
                 V(key, f'{fam}: Love numbers at r0={r0f}R {[complex(x) for x in L]} differ from r0={ref[0]}R {[complex(x) for x in ref[1]]} by {err:.3e} > {budget:.1e}' + extra, r0f=r0f, err=err)
         return {'status': 'violated' if viol else 'held', 'nontrivial': True, 'violations': viol, 'obs': obs, 'counters': cnt}
@@ -265,6 +295,33 @@ def eval_case(c):
             x2max = max(abs(kp), abs(kn)) * (c['r0f'] * R) ** 2
             key = 'takeuchi-y6-cross-index' if (before > 1e-12 and after < before * 0.05) else ('takeuchi-phi-psi-series-truncated' if x2max > 3.0 else 'takeuchi-vs-kamata-differ')
             V(key, f'static={static} r0={c["r0f"]:.3g}R: Kamata {[complex(x) for x in a["love"][0]]} vs Takeuchi {[complex(x) for x in b["love"][0]]} differ by {err:.3e} > {budget:.1e} (Takeuchi vectors in Kamata span: residual {before:.1e}, {after:.1e} after the y6 re-assembly)')
+        return {'status': 'violated' if viol else 'held', 'nontrivial': True, 'violations': viol, 'obs': obs, 'counters': cnt}
+
+    if mon == 'liquid_span':
+        # the two analytic families describe the same 2-dimensional space of regular solutions of a uniform dynamic liquid sphere: the
+        # Takeuchi vectors at r must lie in the span of the Kamata vectors at r (and vice versa); no solver involved, any r is reachable
+        r = c['r0f'] * R
+        Kl = c['Kliq']
+        g_ = 4 / 3 * math.pi * G * rho * r
+        S = np.array([1, 1 / (rho * g_), 1 / (g_ * r), 1 / g_])
+        T = start_vectors(1, False, False, False, c, r, 0j, Kl, 2, 4)
+        Kv = start_vectors(1, False, False, True, c, r, 0j, Kl, 2, 4)
+        gam = 4 * math.pi * G * rho / 3
+        z = (w * w + 4 * gam - l * (l + 1) * gam ** 2 / (w * w)) / (Kl / rho) * r * r
+        obs.update(r0f=c['r0f'], z=z)
+        if not (np.all(np.isfinite(T)) and np.all(np.isfinite(Kv))):
+            if abs(z) > 3.0:
+                return inconclusive(f'non-finite starting vectors at |k^2 r^2| = {abs(z):.3g}')
+            V('liquid-starting-vectors-non-finite', f'dynamic liquid starting vectors at r={c["r0f"]:.3g}R are not finite (k^2 r^2 = {z:.3g})')
+            return {'status': 'violated', 'nontrivial': True, 'violations': viol, 'obs': obs, 'counters': cnt}
+        res = max(max(resid_in((Kv * S).T, T[i] * S) for i in range(2)), max(resid_in((T * S).T, Kv[i] * S) for i in range(2)))
+        cnt['subspace_tests'] += 1
+        obs.update(residual=res)
+        if res > 1e-10:
+            if abs(z) > 3.0:
+                V('takeuchi-phi-psi-series-truncated', f'dynamic liquid core r={c["r0f"]:.3g}R: |k^2 r^2| = {abs(z):.3g}: the Takeuchi phi/psi power series are truncated at z^10, the Takeuchi and Kamata liquid starting vectors span different planes (residual {res:.3e})', residual=res)
+            else:
+                V('liquid-takeuchi-kamata-spans-differ', f'dynamic liquid core r={c["r0f"]:.3g}R (k^2 r^2 = {z:.3g}): the Takeuchi and Kamata starting vectors do not span the same solution plane: residual {res:.3e} > 1e-10', residual=res)
         return {'status': 'violated' if viol else 'held', 'nontrivial': True, 'violations': viol, 'obs': obs, 'counters': cnt}
 
     # zfunc: z observed through the Kamata starting vectors: y3 of solutions 0,1 = z(k2 r^2)/r
